@@ -108,4 +108,4 @@ LEVEL_NOTE = ("The engine's refinement algorithm itself (splitting, counters, re
 TECHNIQUE = "Coq proof of a functional model (greatest fixpoint by refinement) + verified gate; extracted-model correspondence against the engine driven directly"
 DESIGN_REF = "DESIGN.md 5/C16"
 EXPLANATION = "drift is not used: the API contract fixes the returned relation, so equality with the model is the gate"
-READY = False
+READY = True
